@@ -13,9 +13,9 @@ import json, os, random, re, subprocess, sys, hashlib
 import gen_params
 from props.common import diff_run, account
 
-DRIVERS = ["params"]
+DRIVERS = ["params", "params_mpi", "rtstatic_a", "rtstatic_b", "rtstatic_c"]
 MODEL = "params"
-EXTRA_FLAGS = {}
+EXTRA_FLAGS = {"rtstatic_a": ["-DVQ_PART=1"], "rtstatic_b": ["-DVQ_PART=2"], "rtstatic_c": ["-DVQ_PART=3"]}
 _STATE = {}
 
 TRUSTED_BASE = [
@@ -73,7 +73,25 @@ INST = {
     "SCHUR": ("preconditioner/schur_pressure_correction.hpp:schur_pressure_correction::params",
               {"usolver": "MS", "psolver": "MS2"}, {"pmask_size": "4", "pmask_pattern": ">2"}),
 }
+# distributed components (harness/drv_params_mpi.cpp = drv_params.cpp compiled with mpicxx -DVQ_MPI_PARAMS)
+INST_MPI = {
+    "MPMIS": ("mpi/coarsening/pmis.hpp:pmis::params", {"nullspace": "NS"}, {}),
+    "MAGG":  ("mpi/coarsening/aggregation.hpp:aggregation::params", {"aggr": "MPMIS"}, {}),
+    "MSA":   ("mpi/coarsening/smoothed_aggregation.hpp:smoothed_aggregation::params", {"aggr": "MPMIS"}, {}),
+    "MMERGE": ("mpi/partition/merge.hpp:merge::params", {}, {}),
+    "MAMG":  ("mpi/amg.hpp:amg::params", {"coarsening": "MSA", "relax": "EMPTY", "direct": "EMPTY", "repart": "MMERGE"}, {}),
+    "MCPR":  ("mpi/cpr.hpp:cpr::params", {"pprecond": "MAMG", "sprecond": "EMPTY"}, {}),
+    "MMS":   ("mpi/make_solver.hpp:make_solver::params", {"precond": "MAMG", "solver": "CG"}, {}),
+    "MSCHUR": ("mpi/schur_pressure_correction.hpp:schur_pressure_correction::params", {"usolver": "MMS", "psolver": "MMS"},
+               {"pmask_size": "4", "pmask_pattern": ">2"}),
+    # params() leaves num_def_vec uninitialised and the constructor insists on def_vec (the driver supplies a callable)
+    "MSDD":  ("mpi/subdomain_deflation.hpp:subdomain_deflation::params", {"local": "AMG", "isolver": "CG", "dsolver": "EMPTY"},
+              {"num_def_vec": "3"}),
+}
 TOP = [k for k in INST if k != "MS2"]          # instances registered in the driver under their struct id
+TOP_MPI = list(INST_MPI)
+INST.update(INST_MPI)
+GROUPS = [("params", TOP), ("params_mpi", TOP_MPI)]
 NOGET_TAGS = {"deflated_solver.hpp:deflated_solver::params": "deflated", "relaxation/ilut.hpp:ilut::params": "ilut"}
 # structs that cannot be instantiated here (external libraries); checked by translator + C14-A2 only
 NOT_INSTANTIATED = {
@@ -138,6 +156,7 @@ def pre_coq(repo, verif, tier, seed):
     for s in data["structs"]:
         if s["id"] in NOGET_TAGS and _noget(s): flags.append("-DVQ_NOGET_%s=1" % NOGET_TAGS[s["id"]])
     EXTRA_FLAGS["params"] = flags
+    EXTRA_FLAGS["params_mpi"] = flags + ["-DVQ_MPI_PARAMS"]
     _STATE["noget"] = set(s["id"] for s in data["structs"] if s["id"] in NOGET_TAGS and _noget(s))
 
 
@@ -217,19 +236,22 @@ def pick_value(r, f, dflt, data, variant):
     return None
 
 
-def build_cases(ctx, data, defaults):
-    r = random.Random(ctx["seed"] * 7919 + 14)
+def build_cases(ctx, data, defaults, tops, pfx):
+    r = random.Random(ctx["seed"] * 7919 + 14 + len(pfx))
     thorough = ctx["tier"] != "quick"
     lines = []; meta = {}
     exc_keys = set((e["struct"], e["key"]) for e in _STATE["exc"].get("keys", []))
     k = [0]
     def add(inst, sch, tree, setvals, extras, expect_exc=None, note=""):
-        cid = "p%d" % k[0]; k[0] += 1
+        cid = "%s%d" % (pfx, k[0]); k[0] += 1
         sid = INST[inst][0]
         sch_tok = T(sch.tree.data, sch.tree.kids); sch_tok.data = "@noget" if sid in _STATE["noget"] else ""
         lines.append("%s rt %s %s %s %s" % (cid, sid, tree.tok(), defaults[inst].tok(), sch_tok.tok()))
-        meta[cid] = dict(inst=inst, sid=sid, setvals=dict(setvals), extras=list(extras), exc=expect_exc, note=note, sch=sch)
-    for inst in TOP:
+        sv = dict(setvals)
+        for rp, rv in sch.required.items():
+            if rp in sch.values: sv.setdefault(rp, rv)
+        meta[cid] = dict(inst=inst, sid=sid, setvals=sv, extras=list(extras), exc=expect_exc, note=note, sch=sch)
+    for inst in tops:
         sch = Schema(data, inst)
         dl = defaults[inst].leaves()
         def base_tree():
@@ -325,70 +347,77 @@ def run(ctx, cases_override=None):
         _STATE["exc"] = json.load(open(os.path.join(ctx["verif"], "tools", "params_exceptions.json")))
         _STATE["noget"] = set(s["id"] for s in data["structs"] if s["id"] in NOGET_TAGS and _noget(s))
     st = ctx["stats"]
-    exe = ctx["cpp"]["params"]
     byid = {s["id"]: s for s in data["structs"]}
+    exc_keys = set((e["struct"], e["key"]) for e in _STATE["exc"].get("keys", []))
 
     # ---- registered ids vs translator's structs
-    out = ctx["run_driver"](exe, ["i0 ids"], shards=1)
-    reg_ids = set((out.get("i0") or "").split())
+    reg_ids = set()
+    for drv, tops in GROUPS:
+        out = ctx["run_driver"](ctx["cpp"][drv], ["i0 ids"], shards=1)
+        reg_ids |= set((out.get("i0") or "").split())
     for s in data["structs"]:
-        if s["id"] not in reg_ids and s["id"] not in NOT_INSTANTIATED and not s["id"].startswith(MPI_STRUCTS_PREFIX):
+        if s["id"] not in reg_ids and s["id"] not in NOT_INSTANTIATED:
             fails.append(dict(kind="broken-correspondence", case="struct %s (%s:%d)" % (s["id"], s["file"], s["line"]), has_input=False,
                               impl="not registered in harness/drv_params.cpp", model=None, op="ids", size=10 ** 6,
                               theorem="harness registry: a params struct of the tree is neither instantiated by drv_params nor listed as not instantiable"))
-    for inst in TOP:
+    for inst in INST:
         if INST[inst][0] not in byid:
             fails.append(dict(kind="broken-correspondence", case="struct %s" % INST[inst][0], has_input=False, impl=None, model="translator did not find it",
                               op="ids", size=10 ** 6, theorem="translator vs compiler: a struct instantiated by the harness is not found by tools/gen_params.py"))
 
-    # ---- defaults (implementation) and translator-vs-compiler validation
-    dl = ["d%d defaults %s" % (i, INST[inst][0]) for i, inst in enumerate(TOP)]
-    dout = ctx["run_driver"](exe, dl, shards=4)
-    defaults = {}
-    for i, inst in enumerate(TOP):
-        o = dout.get("d%d" % i) or ""
-        if o == "NOGET" or not o.startswith("["):
-            defaults[inst] = T()
-            if o != "NOGET":
-                fails.append(dict(kind="counterexample", case=dl[i], impl=o, model=None, op="defaults", size=len(dl[i]),
-                                  theorem="default-constructed params struct can be exported"))
-            continue
-        defaults[inst] = parse_tree(o)
-        sch = Schema(data, inst)
-        got = set(defaults[inst].leaves().keys())
-        if got != sch.export_paths:
-            miss = sorted(".".join(p) for p in sch.export_paths - got); extra = sorted(".".join(p) for p in got - sch.export_paths)
-            fails.append(dict(kind="broken-correspondence", case=dl[i], impl="exported by the compiled get(): extra %s" % extra,
-                              model="predicted by tools/gen_params.py: missing %s" % miss, op="defaults", size=len(dl[i]),
-                              theorem="translator validated against the compiler: export paths of a default-constructed struct"))
-    st["oracle_checks"] += len(TOP)
+    all_defaults = {}
+    for gi, (drv, tops) in enumerate(GROUPS):
+        exe = ctx["cpp"][drv]
+        # ---- defaults (implementation) and translator-vs-compiler validation
+        dl = ["d%d defaults %s" % (i, INST[inst][0]) for i, inst in enumerate(tops)]
+        dout = ctx["run_driver"](exe, dl, shards=4)
+        defaults = {}
+        for i, inst in enumerate(tops):
+            o = dout.get("d%d" % i) or ""
+            if o == "NOGET" or not o.startswith("["):
+                defaults[inst] = T()
+                if o != "NOGET":
+                    fails.append(dict(kind="counterexample", case=dl[i], impl=o, model=None, op="defaults", size=len(dl[i]),
+                                      theorem="default-constructed params struct can be exported"))
+                continue
+            defaults[inst] = parse_tree(o)
+            sch = Schema(data, inst)
+            got = set(defaults[inst].leaves().keys())
+            if got != sch.export_paths:
+                miss = sorted(".".join(p) for p in sch.export_paths - got); extra = sorted(".".join(p) for p in got - sch.export_paths)
+                fails.append(dict(kind="broken-correspondence", case=dl[i], impl="exported by the compiled get(): extra %s" % extra,
+                                  model="predicted by tools/gen_params.py: missing %s" % miss, op="defaults", size=len(dl[i]),
+                                  sig=dict(struct=INST[inst][0], field="(export paths)"),
+                                  theorem="translator validated against the compiler: export paths of a default-constructed struct"))
+        st["oracle_checks"] += len(tops)
+        all_defaults.update(defaults)
 
-    # ---- round trips: implementation vs extracted Coq model, plus the python oracle on the implementation
-    if cases_override:
-        lines = [l for l in cases_override if " rt " in l or " ptree " in l]
-        meta = {}
-    else:
-        lines, meta = build_cases(ctx, data, defaults)
-        lines += ptree_cases(ctx)
-    f, impl, model = diff_run(ctx, "params", lines, shards=8,
-                              nontrivial=lambda op, pin, o: bool(o) and not o.startswith(("EXC", "CRASH", "NOT")))
-    for x in f:
-        x["theorem"] = "correspondence drv_params (%s) vs Ptree.v on the regenerated tables (import/export/unknowns)" % x["op"]
-        m = meta.get(x["case"].split(" ", 1)[0])
-        if m: x["sig"] = locate(m, x["impl"], x["model"], defaults)
-    fails += f
-    for l in lines:
-        cid = l.split(" ", 1)[0]; m = meta.get(cid)
-        if not m: continue
-        st["oracle_checks"] += 1
-        bad = oracle(m, impl.get(cid), defaults[m["inst"]])
-        if bad:
-            st["oracle_fail"] += 1
-            what, sig = bad
-            fails.append(dict(kind="counterexample", case=l, impl=impl.get(cid), model=what, op="rt", size=len(l), sig=sig,
-                              theorem="C14: import followed by export returns every value parameter that was set, defaults elsewhere; "
-                                      "exactly the unknown keys reach AMGCL_PARAM_UNKNOWN; invalid enumeration text raises",
-                              oracle=dict(statement=what, struct=sig.get("struct"), field=sig.get("field"))))
+        # ---- round trips: implementation vs extracted Coq model, plus the python oracle on the implementation
+        if cases_override:
+            lines = [l for l in cases_override if (" rt " in l or " ptree " in l) and l.startswith("pm" if gi else "ps")]
+            meta = {}
+        else:
+            lines, meta = build_cases(ctx, data, defaults, tops, "pm" if gi else "ps")
+            if gi == 0: lines += ptree_cases(ctx)
+        f, impl, model = diff_run(ctx, drv, lines, shards=8,
+                                  nontrivial=lambda op, pin, o: bool(o) and not o.startswith(("EXC", "CRASH", "NOT")))
+        for x in f:
+            x["theorem"] = "correspondence drv_%s (%s) vs Ptree.v on the regenerated tables (import/export/unknowns)" % (drv, x["op"])
+            m = meta.get(x["case"].split(" ", 1)[0])
+            if m: x["sig"] = locate(m, x["impl"], x["model"], defaults)
+        fails += f
+        for l in lines:
+            cid = l.split(" ", 1)[0]; m = meta.get(cid)
+            if not m: continue
+            st["oracle_checks"] += 1
+            bad = oracle(m, impl.get(cid), defaults[m["inst"]])
+            if bad:
+                st["oracle_fail"] += 1
+                what, sig = bad
+                fails.append(dict(kind="counterexample", case=l, impl=impl.get(cid), model=what, op="rt", size=len(l), sig=sig,
+                                  theorem="C14: import followed by export returns every value parameter that was set, defaults elsewhere; "
+                                          "exactly the unknown keys reach AMGCL_PARAM_UNKNOWN; invalid enumeration text raises",
+                                  oracle=dict(statement=what, struct=sig.get("struct"), field=sig.get("field"))))
 
     # ---- issues found by the decision procedure (extracted from Coq) on the regenerated tables
     iss = ctx["run_driver"](ctx["model"], ["q0 issues"], shards=1).get("q0", "")
@@ -413,6 +442,8 @@ def run(ctx, cases_override=None):
             fails.append(dict(kind="counterexample", case="compile probe: %s::get(ptree&, \"\") on a default-constructed struct" % a,
                               impl=err, model=why, op="probe", size=1, sig=dict(struct=a, field=b),
                               theorem="C14: every parameter is written back by the parameter export"))
+        elif why == "accepted-by-check_params-but-never-read" and demo_accepted(ctx, a, b, fails, why):
+            pass
         else:
             fails.append(dict(kind="counterexample", case="static: " + static_excerpt(ctx["repo"], data, a), impl=why, model=None, op="static",
                               size=1, sig=dict(struct=a, field=b), theorem="C14_A2 " + why))
@@ -421,6 +452,27 @@ def run(ctx, cases_override=None):
     if not cases_override:
         fails += rtstatic(ctx)
     return fails
+
+
+def demo_accepted(ctx, sid, key, fails, why):
+    """a key listed in check_params that no member reads: set it, observe that it neither reaches the
+    unknown hook nor the export"""
+    for drv, tops in GROUPS:
+        for inst in tops:
+            if INST[inst][0] != sid: continue
+            t = T()
+            for k, v in INST[inst][2].items(): t.force((k,)).data = v
+            t.force((key,)).data = "5"
+            line = "x0 rt %s %s" % (sid, t.tok())
+            o = ctx["run_driver"](ctx["cpp"][drv], [line], shards=1).get("x0") or ""
+            ctx["stats"]["oracle_checks"] += 1
+            mm = re.match(r"T:(\S+) U:\[(.*)\]$", o)
+            if mm and key not in mm.group(2).split() and (mm.group(1) == "NOGET" or (key,) not in parse_tree(mm.group(1)).leaves()):
+                fails.append(dict(kind="counterexample", case=line, impl=o, op="rt", size=len(line), sig=dict(struct=sid, field=key),
+                                  model="key %s is neither handed to AMGCL_PARAM_UNKNOWN nor imported/exported: silently dropped" % key,
+                                  theorem="C14: a key that no component understands is reported through the unknown-parameter hook"))
+                return True
+    return False
 
 
 def oracle(m, out, dflt):
@@ -497,5 +549,113 @@ def ptree_cases(ctx):
 
 
 # ------------------------------------------------------------------ (ii) run-time vs compile-time
+POOL = {
+    "amg": dict(npre=["1", "2"], npost=["1", "2"], ncycle=["1", "2"], pre_cycles=["1", "2"], coarse_enough=["10", "20"],
+                direct_coarse=["true", "false"], max_levels=["2", "3", "10"]),
+    "coarsening": {
+        "ruge_stuben": dict(eps_strong=["0.25", "0.5"], do_trunc=["true", "false"], eps_trunc=["0.125", "0.25"]),
+        "aggregation": {"over_interp": ["1.5", "2"], "aggr.eps_strong": ["0.0625", "0.125"]},
+        "smoothed_aggregation": {"relax": ["0.75", "1"], "estimate_spectral_radius": ["true", "false"], "power_iters": ["0", "3"],
+                                 "aggr.eps_strong": ["0.0625", "0.125"]},
+        "smoothed_aggr_emin": {"aggr.eps_strong": ["0.0625", "0.125"]},
+    },
+    "relax": {
+        "gauss_seidel": dict(serial=["true", "false"]), "ilu0": dict(damping=["0.75", "1"]), "iluk": dict(k=["1", "2"], damping=["0.75", "1"]),
+        "ilup": dict(k=["1", "2"]), "ilut": dict(p=["2", "3"], tau=["0.0625", "0.015625"]), "damped_jacobi": dict(damping=["0.5", "0.75"]),
+        "spai0": {}, "spai1": {}, "chebyshev": dict(degree=["2", "3"], power_iters=["0", "4"], scale=["true", "false"]),
+    },
+    "solver": {
+        "cg": {}, "bicgstab": dict(pside=["left", "right"]), "bicgstabl": dict(L=["2", "3"], pside=["left", "right"]),
+        "gmres": dict(M=["5", "10"], pside=["left", "right"]), "lgmres": dict(M=["5", "10"], K=["2", "3"], pside=["left", "right"]),
+        "fgmres": dict(M=["5", "10"]), "idrs": dict(s=["2", "4"], smoothing=["true", "false"]), "richardson": dict(damping=["0.75", "1"]),
+        "preonly": {},
+    },
+    "solver_common": dict(tol=["1e-06", "1e-09"], maxiter=["4", "25", "100"]),
+}
+
+def rt_tree(r, key, extra=None, bad=None):
+    """run-time tree for a static configuration key of drv_rtstatic: class/coarsening/relax/solver"""
+    def put_pool(node, pool, prob=0.6):
+        for k, vs in pool.items():
+            if r.random() < prob: node.force(tuple(k.split("."))).data = r.choice(vs)
+    t = T()
+    def fill_amg(node, c, rl):
+        node.force(("class",)).data = "amg"
+        node.force(("coarsening", "type")).data = c; put_pool(node.force(("coarsening",)), POOL["coarsening"][c])
+        node.force(("relax", "type")).data = rl; put_pool(node.force(("relax",)), POOL["relax"][rl])
+        put_pool(node, POOL["amg"]); node.force(("coarse_enough",)).data = r.choice(POOL["amg"]["coarse_enough"])
+    def fill_solver(node, sv):
+        node.force(("type",)).data = sv
+        if sv != "preonly": put_pool(node, POOL["solver_common"])
+        put_pool(node, POOL["solver"][sv])
+    if key.startswith("nested:"):
+        inner, outer = key[len("nested:"):].split("///")
+        cls, c, rl, sv = inner.split("/")
+        pn = t.force(("precond",)); pn.force(("class",)).data = "nested"
+        fill_amg(pn.force(("precond",)), c, rl); fill_solver(pn.force(("solver",)), sv)
+        pn.force(("solver", "maxiter")).data = r.choice(["1", "2", "3"])
+        fill_solver(t.force(("solver",)), outer)
+    else:
+        cls, c, rl, sv = key.split("/")
+        pn = t.force(("precond",))
+        if cls == "amg": fill_amg(pn, c, rl)
+        elif cls == "relaxation":
+            pn.force(("class",)).data = "relaxation"; pn.force(("type",)).data = rl; put_pool(pn, POOL["relax"][rl])
+        else: pn.force(("class",)).data = cls
+        fill_solver(t.force(("solver",)), sv)
+    if extra: t.force(extra).data = "1"
+    if bad: t.force(bad[0]).data = bad[1]
+    return t
+
+
 def rtstatic(ctx):
-    return []
+    r = random.Random(ctx["seed"] * 104729 + 3)
+    thorough = ctx["tier"] != "quick"
+    st = ctx["stats"]; fails = []
+    for part in ("rtstatic_a", "rtstatic_b", "rtstatic_c"):
+        exe = ctx["cpp"][part]
+        keys = (ctx["run_driver"](exe, ["k0 keys"], shards=1).get("k0") or "").split()
+        lines = []; expect = {}
+        n = [0]
+        def add(key, tree, kind, extra=None):
+            cid = "%s%d" % (part[-1], n[0]); n[0] += 1
+            lines.append("%s cmp %d %d %s" % (cid, r.choice([7, 9, 12]), r.randint(1, 10 ** 6), tree.tok()))
+            expect[cid] = (kind, key, extra)
+        for key in keys:
+            for rep in range(1 if not thorough else 4):
+                add(key, rt_tree(r, key), "eq")
+        # unknown keys through the run-time interface: reported by the component that owns the subtree
+        for key in r.sample(keys, min(len(keys), 3 if not thorough else 8)):
+            cls = key.split("/")[0]
+            where = r.choice([("solver",), ("precond",)] + ([("precond", "relax"), ("precond", "coarsening")] if cls == "amg" else []))
+            if cls in ("dummy",) and where == ("precond",): where = ("solver",)
+            k = r.choice(["bogus", "tolerance", "dampin"])
+            add(key, rt_tree(r, key, extra=where + (k,)), "unknown", k)
+        # invalid enumeration text in every dispatch slot
+        for key in r.sample(keys, min(len(keys), 2 if not thorough else 6)):
+            cls = key.split("/")[0]
+            slots = [("solver", "type"), ("precond", "class")]
+            if cls == "amg": slots += [("precond", "coarsening", "type"), ("precond", "relax", "type")]
+            if cls == "relaxation": slots += [("precond", "type")]
+            for sl in slots:
+                add(key, rt_tree(r, key, bad=(sl, r.choice(["cgs", "amgx", "jacobi", "AMG", "Smoothed_Aggregation"]))), "badenum")
+        out = ctx["run_driver"](exe, lines, shards=8)
+        account(ctx, lines, out, nontrivial=lambda op, pin, o: bool(o) and " it=" in o)
+        for l in lines:
+            cid = l.split(" ", 1)[0]; kind, key, extra = expect[cid]; o = out.get(cid) or ""
+            st["oracle_checks"] += 1
+            bad = None
+            if kind == "badenum":
+                if not o.startswith("RT EXC invalid_argument"): bad = "invalid enumeration text must raise std::invalid_argument"
+            else:
+                if not o.endswith("| EQ") or " it=" not in o: bad = "run-time and compile-time solvers differ (iterations / residual / solution bits / unknown keys)"
+                elif kind == "unknown" and [set(x.split()) for x in re.findall(r"U=\[(.*?)\]", o)] != [{extra}, {extra}]:
+                    # (a struct deriving from another params struct checks the tree twice: the key may be listed twice)
+                    bad = "unknown key %s not handed to AMGCL_PARAM_UNKNOWN" % extra
+                elif kind == "eq" and re.findall(r"U=\[(.*?)\]", o) != ["", ""]: bad = "a valid key was reported as unknown"
+            if bad:
+                st["oracle_fail"] += 1; st["mismatches"] += 1
+                fails.append(dict(kind="counterexample", case=l, impl=o, model=bad, op="cmp", size=len(l), sig=dict(config=key, what=kind),
+                                  theorem="C14_A3 + tie (ii): run-time dispatch = the compile-time component with the same parameters, bit for bit",
+                                  driver=part))
+    return fails
